@@ -61,10 +61,10 @@ def gen_case(rng, **opts):
     if rng.random() < opts.get("p_names", 0.0):
         names = []
         insts = [i for f in program["features"] for i in iter_scenario_instances(f)]
-        for _ in range(rng.choice([1, 1, 2])):
+        for _ in range(rng.choice([1, 1, 2]) if insts else 0):
             i = rng.choice(insts)
             names.append(rng.choice([i["name"].split(" ")[0], "S\\d*[02468]$", "O", "@1\\.1", "^F0", i["name"][:4]]))
-        cfg["names"] = names
+        cfg["names"] = names or None
         args.extend("--name=%s" % n for n in names)
     return {"program": program, "args": args, "cfg": cfg}
 
